@@ -30,12 +30,12 @@ LEVEL = "proof"
 LEAN = ["SaVerif.Props.C04"]
 META = {
     "text": "Lean theorems over ALL statements (any number/order of text, bind and post-compile segments, any names/values): under the NoPattern guard the regex scan of _process_positional recovers exactly the bind segments in order (positional_alignment), _process_numeric numbers every placeholder with the index of its own name in positiontup (numeric_alignment), expanding-IN expansion keeps every later placeholder aligned (expanding_alignment: loop-invariant proof over _process_parameters_for_postcompile for qmark/format under the NoClash freshness guard), and each style delivers to every placeholder the value of the bind it stands for (delivery theorems); the guard is shown necessary by proved counterexamples (F2 identifier `%(id)s`; escaped-name collision). The model is tied to compiler.py/default.py by a translator (templates, regex sources, escape table) and by differential runs: scanner vs CPython re, compiled.string/positiontup and cursor-level (statement, parameters) vs model on SQLite for all six paramstyles. The property itself is checked on the real code by two independent oracles (placeholder substitution vs literal_binds rendering on 16 dialect/driver configurations; row equality across the six paramstyles on SQLite).",
-    "note": "Trusted: Lean kernel; CPython re semantics (modelled as scanners, differential-tested each run); PEP 249 placeholder grammar of non-SQLite drivers (never connected; format/pyformat are executed on SQLite through a `stmt % params` emulation); literal rendering of ints/strings (C05); tuple-valued expanding parameters, bind processors and insertmanyvalues batch rewriting are outside the Lean model (covered by the row oracle only). Known findings: literal_execute parameter whose name needs escaping raises KeyError; two names escaping to the same string are bound to one value (named/pyformat) or assert (positional); identifier matching %(name)s is rewritten (F2).",
+    "note": "Trusted: Lean kernel; CPython re semantics (modelled as scanners, differential-tested each run); PEP 249 placeholder grammar of non-SQLite drivers (never connected; format/pyformat are executed on SQLite through a `stmt % params` emulation); literal rendering of ints/strings (C05); tuple-valued expanding parameters, bind processors and insertmanyvalues batch rewriting are outside the Lean model (covered by the row oracle only). Known findings: two names escaping to the same string are bound to one value (named/pyformat) or assert (positional); identifier matching %(name)s is rewritten (F2).",
     "technique": "Lean 4 induction over segment lists for regex-scanner round trips + refinement of the positional/numeric/post-compile pipeline; regenerated tables; differential correspondence; independent substitution/row oracles",
     "design_ref": "DESIGN.md §3 C04",
 }
 
-KEY_LE = "escaped-bindname-literal-execute-keyerror"
+KEY_LE = "literal-execute-escaped-name-keyerror"
 KEY_COLL = "escaped-bindname-collision"
 KEY_F2 = "identifier-matches-pyformat-pattern"
 KEY_CLASH = "expanded-name-clashes-with-bind-name"
@@ -555,6 +555,94 @@ def f2_check(ctx, env):
     return False
 
 
+# --------------------------------------------------------------------------- compile-level API stream
+API_NAMES = ["x.y", "a[0]", "p:q", "m n", "pct%", "(z)", "plain_nm", None]  # None = column-derived (wt."a.b" -> a.b_1)
+API_KINDS = ["plain", "expanding", "literal_execute", "literal_execute_expanding"]
+
+
+def api_stream(ctx, env, record=True):
+    """bind names needing escaping x {plain, expanding, literal_execute} x {construct_params,
+    construct_expanded_state(escape_names=True/False), render_postcompile} x six paramstyles
+    on the sqlite dialect: after substituting every placeholder by the value the API hands
+    out for it, the statement must list the same value tokens as the literal rendering"""
+    import sqlalchemy as sa
+
+    lb = env.lb
+    wt = env.fx.wt
+    nviol = 0
+    for nm in API_NAMES:
+        for kind in API_KINDS:
+            v1, v2 = 4100 + len(str(nm)) * 7, 5200
+            col = wt.c["a.b"]
+            kw = {}
+            if kind in ("literal_execute", "literal_execute_expanding"):
+                kw["literal_execute"] = True
+            if kind in ("expanding", "literal_execute_expanding"):
+                kw["expanding"] = True
+                val = [v1, v1 + 1, v1 + 2]
+            else:
+                val = v1
+            if nm is None:
+                if kind == "plain":
+                    cond = col == v1
+                elif kind == "expanding":
+                    cond = col.in_(val)
+                else:
+                    continue
+            else:
+                bp = sa.bindparam(nm, val, **kw)
+                cond = col.in_(bp) if "expanding" in kind else col == bp
+            st = sa.select(wt.c.id).where(cond).where(wt.c.plain > sa.bindparam("tail.nm", v2))
+            case = {"spec": {"kind": "api", "name": nm, "bind": kind, "shared": []}}
+            for style in lb.STYLES:
+                d = env.engines[style].dialect
+                lsql = literal_reference(ctx, env, st, d)
+                if lsql is None:
+                    continue
+                for api in ("construct_params", "expanded_state_escaped", "expanded_state_unescaped", "render_postcompile", "execute"):
+                    try:
+                        if api == "execute":
+                            r = execute_on(env, style, env.engines[style], st, None, False)
+                            if r["status"] != "ok":
+                                raise RuntimeError(r["status"] + " " + r.get("msg", ""))
+                            sql, dbp = r["cap"][0][0], r["cap"][0][1]
+                        else:
+                            c = st.compile(dialect=d, compile_kwargs={"render_postcompile": True} if api == "render_postcompile" else {})
+                            esc = c.escaped_bind_names
+                            if api == "construct_params":
+                                if kind != "plain":
+                                    pd = c.construct_params()
+                                    # every bind must be present under its escaped name with its own value
+                                    want = {esc.get(n, n): b.value for b, n in c.bind_names.items()}
+                                    if pd != want:
+                                        raise AssertionError("construct_params %r != %r" % (pd, want))
+                                    continue
+                                sql, pd, pt = c.string, c.construct_params(), c.positiontup
+                            elif api == "render_postcompile":
+                                sql, pd, pt = c.string, c.construct_params(), c.positiontup
+                            else:
+                                es = c.construct_expanded_state(escape_names=(api == "expanded_state_escaped"))
+                                sql, pd, pt = es.statement, dict(es.parameters), es.positiontup
+                                if api == "expanded_state_escaped" and any(k in esc and esc[k] != k for k in pd):
+                                    raise AssertionError("escape_names=True returned unescaped key(s) %r" % sorted(pd))
+                            # the APIs differ in whether keys are escaped; placeholders always are
+                            pd = {esc.get(k, k): v for k, v in pd.items()}
+                            pt = [esc.get(k, k) for k in pt] if pt is not None else None
+                            dbp = tuple(pd[k] for k in pt) if c.positional else pd
+                        why = oracle_text(lb, style, sql, dbp, lsql)
+                    except Exception as ex:
+                        why = "%s: %s" % (type(ex).__name__, str(ex)[:160])
+                    if record:
+                        ctx.count("api:" + api)
+                    if why:
+                        nviol += 1
+                        needs = nm is None or lb.expected_escape(nm) != nm
+                        key = KEY_LE if (needs and kind != "plain" and "KeyError" in why) else "c04:api-%s" % api
+                        ctx.violation(key, dict(case, style=style, api=api), "name %r kind %s style %s api %s: %s" % (nm, kind, style, api, why))
+                        break
+    return nviol
+
+
 # --------------------------------------------------------------------------- entry points
 def run(ctx, deep=False):
     from harness import lib_binds as lb
@@ -581,10 +669,10 @@ def run(ctx, deep=False):
     for i in range(n):
         cfg = {"weird_p": ctx.rng.choice([0.0, 0.5, 0.9]), "le_p": ctx.rng.choice([0.0, 0.12, 0.3]), "avoid_known": True}
         sp = lb.gen_stmt_spec(ctx.rng, cfg)
-        strip_known(sp)
         check_spec(ctx, env, sp, corr, fakes=(i % 2 == 0) or thorough)
         if i < 4:
             ctx.sample({"spec": sp})
+    api_stream(ctx, env)
     for sp in adversarial_specs(ctx.rng):
         ctx.count("adversarial")
         check_spec(ctx, env, sp, None, fakes=False)
@@ -638,7 +726,6 @@ def search(ctx, broken):
     for i in range(1500):
         cfg = {"weird_p": sub.rng.choice([0.0, 0.5, 0.9]), "le_p": sub.rng.choice([0.0, 0.12, 0.3])}
         sp = lb.gen_stmt_spec(sub.rng, cfg)
-        strip_known(sp)
         if check_spec(sub, env, sp, None, fakes=True, record=False):
             break
     ctx.violations.extend(sub.violations)
@@ -647,7 +734,9 @@ def search(ctx, broken):
 def replay(ctx, obj):
     env = Env()
     sp = obj["case"]["spec"]
-    if sp.get("kind") == "f2":
+    if sp.get("kind") == "api":
+        bad = api_stream(ctx, env, record=False) > 0
+    elif sp.get("kind") == "f2":
         bad = f2_check(ctx, env)
     else:
         bad = check_spec(ctx, env, sp, None, fakes=True, record=False) > 0
